@@ -128,7 +128,97 @@ func (rn *runner) fsizePhase() {
 
 // ---------------------------------------------------------------- (c) histories
 
+// histFreshRound: `rounds` files that do not exist yet, each hit by every goroutine of every
+// process at the same instant with a few calls (the calls that create the file race): one
+// history per file, checked like the long histories.
+func (rn *runner) histFreshRound(mode string, procs, gor, iters int, seed uint64) bool {
+	rounds := 12
+	if rn.f.Tier != "quick" {
+		rounds = 40
+	}
+	evs, finals, err := runHistRounds(rn.self, rn.f.Work, mode, procs, gor, iters, seed, nil, rounds)
+	if err != nil {
+		rn.res.Notes = append(rn.res.Notes, "fresh-file history round could not be run: "+err.Error())
+		return false
+	}
+	in := map[string]string{"kind": "hist", "mode": mode, "procs": fmt.Sprint(procs), "goroutines": fmt.Sprint(gor),
+		"iters": fmt.Sprint(iters), "seed": fmt.Sprint(seed)}
+	found := false
+	for r := 0; r < rounds; r++ {
+		var g []hev
+		writes := 0
+		for _, e := range evs {
+			if e.Round == r {
+				g = append(g, e)
+				rn.res.Count("hist-" + mode + ":" + e.Op)
+				if e.OK && (e.Op == "W" || (e.Op == "T" && e.B != 0) || (e.Op == "I" && e.B != e.A)) {
+					writes++
+				}
+			}
+		}
+		overl := 0
+		for i := 1; i < len(g); i++ {
+			if g[i].Inv < g[i-1].Resp {
+				overl++
+			}
+		}
+		rn.res.Distribution["hist-overlapping-calls"] += overl
+		rn.res.Evaluations += len(g)
+		rn.res.Case(fmt.Sprintf("hist %s %d %d %d %d round %d", mode, procs, gor, iters, seed, r), overl > 0)
+		var fs []histFinding
+		final := finals[r]
+		switch {
+		case mode == "fresh-incr" && rn.prop == "C06":
+			fs = checkInside(g) // exclusion only; lost updates are C07's business
+		case mode == "fresh-incr":
+			fs = checkInside(g)
+			if len(fs) > 0 {
+				break
+			}
+			if len(final) == 0 && writes == 0 {
+				final = []byte("0")
+			}
+			fs = checkIncr(g, final, "incr")
+		case len(final) == 0 && writes > 0:
+			fs = append(checkRegister(g, 1, nil), histFinding{"lost-update", fmt.Sprintf("%d Write/Transform calls on the new file returned nil, but at rest the file is empty", writes), nil})
+		case len(final) == 0:
+			fs = checkRegister(g, 1, nil)
+		default:
+			fs = checkRegister(g, 1, final)
+		}
+		for _, f := range fs {
+			in2 := map[string]string{"round": fmt.Sprint(r)}
+			for k, x := range in {
+				in2[k] = x
+			}
+			var hs []string
+			for _, o := range f.Ops {
+				hs = append(hs, o.String())
+			}
+			if len(hs) == 0 {
+				for _, o := range g {
+					hs = append(hs, o.String())
+				}
+			}
+			in2["history"] = strings.Join(hs, "\n")
+			oracle := "linearizability:" + f.Key
+			if f.Key == "two-inside" {
+				oracle = "overlap-witness:new-file-two-inside"
+			}
+			rn.violate("impl-violation", oracle, "hist "+mode+" "+f.Key, "file that did not exist when the calls began: "+f.Detail, strings.Join(hs, " ; "), "", in2)
+			found = true
+		}
+		if found {
+			break
+		}
+	}
+	return found
+}
+
 func (rn *runner) histRound(mode string, procs, gor, iters int, seed uint64) bool {
+	if strings.HasPrefix(mode, "fresh-") {
+		return rn.histFreshRound(mode, procs, gor, iters, seed)
+	}
 	initial := payload(1, 17)
 	if mode == "incr" {
 		initial = []byte("0")
@@ -192,6 +282,14 @@ func (rn *runner) histPhase() {
 	for r := 0; r < rounds; r++ {
 		if rn.histRound("append", procs, gor+1, iters/2, rn.rng.Uint64()%1000000) {
 			break
+		}
+	}
+	// files that do not exist yet: the creating calls race (3 calls per goroutine and file)
+	for _, mode := range []string{"fresh-incr", "fresh-mixed"} {
+		for r := 0; r < (rounds+1)/2; r++ {
+			if rn.histRound(mode, procs, gor, 3, rn.rng.Uint64()%1000000) {
+				break
+			}
 		}
 	}
 }
@@ -345,6 +443,10 @@ func (rn *runner) runInput(in map[string]string) {
 		rn.mutexPhase()
 	case "release":
 		rn.relOne(relCaseOf(in))
+	case "seq":
+		rn.seqOne(seqCase{in["script"], in["exists"]}, false)
+	case "holdseq":
+		rn.holdSeqOne(hsCase{in["script"], in["exists"]}, false)
 	case "direct":
 		rn.directOne(directCase{in["call"], in["spec"], in["file"]})
 	case "limit":
